@@ -73,6 +73,42 @@ theorem convert_default_leaf_stream_ok {β : Type} (lookup : Coord → Outcome (
   obtain ⟨s', h1, h2⟩ := convert_good _ p rc hr hq (default_good lookup cover hc h)
   exact ⟨s', h1, h2.stream_ok⟩
 
+/-- the leaves of a pipeline as converting readers over good sources: leaf `i` is
+    `TilesConvertReader(leaf i, pin i)` declared with format `fmt i` and compression `comp i` -/
+def convLeaves {β : Type} (leaf : Nat → Src β) (pin : Nat → Params β) (fmt comp : Nat → Nat) :
+    Nat → Outcome (Op β) :=
+  fun i => (convert (leaf i) (pin i)).map fun s => ⟨s, fmt i, comp i⟩
+
+/-- every leaf of `convLeaves` that opens is a good source -/
+theorem convLeaves_good {β : Type} (leaf : Nat → Src β) (pin : Nat → Params β) (fmt comp : Nat → Nat)
+    (rc : Nat → β → β) (hr : ∀ i v, (pin i).recode v = some (rc i v))
+    (hq : ∀ i q, (pin i).bboxPyramid = some q → q.WF) (hleaf : ∀ i, Good (leaf i)) :
+    ∀ i o, convLeaves leaf pin fmt comp i = .ok o → Good o.src := by
+  intro i o h
+  obtain ⟨s', h1, g⟩ := convert_good (leaf i) (pin i) (rc i) (hr i) (hq i) (hleaf i)
+  unfold convLeaves at h
+  rw [h1] at h
+  simp only [Outcome.map, Outcome.bind] at h
+  cases h
+  exact g
+
+/-- **convert ∘ pipeline ∘ convert**: a pipeline of any depth whose leaves are converting readers
+    (each with its own flip / swap / restriction / total recompressor) over good sources, with one
+    more converting reader on top (what `versatiles convert --flip-y …` / `serve` do with a `.vpl`
+    whose `from_container` leaves are themselves converted), satisfies C02. -/
+theorem convert_pipe_convert_stream_ok {β : Type} (ops : Ops β) (leaf : Nat → Src β)
+    (pin : Nat → Params β) (fmt comp : Nat → Nat) (rc : Nat → β → β)
+    (hr : ∀ i v, (pin i).recode v = some (rc i v))
+    (hq : ∀ i q, (pin i).bboxPyramid = some q → q.WF) (hleaf : ∀ i, Good (leaf i))
+    (pl : Pipe) (hd : pl.DebugOK) (o : Op β)
+    (h : build ops (convLeaves leaf pin fmt comp) pl = .ok o)
+    (p : Params β) (rc' : β → β) (hr' : ∀ v, p.recode v = some (rc' v))
+    (hq' : ∀ q, p.bboxPyramid = some q → q.WF) :
+    StreamOK o.src ∧ ∃ s', convert o.src p = .ok s' ∧ StreamOK s' := by
+  have henv := convLeaves_good leaf pin fmt comp rc hr hq hleaf
+  exact ⟨pipe_stream_ok ops _ henv pl hd o h,
+    pipe_under_convert_stream_ok ops _ henv pl hd o h p rc' hr' hq'⟩
+
 /-! ### non-vacuity: a flipped + swapped reader over the one-tile demo source -/
 
 def demoParams : Params Nat := ⟨none, true, true, some⟩
@@ -81,5 +117,15 @@ example : ∃ s', convert (Src.ofLookup demoLookup Pyramid.newEmpty) demoParams 
   convert_default_leaf_stream_ok demoLookup _ VtProofs.Converter.wf_newEmpty
     (fun c _ => by unfold demoLookup; split <;> exact ⟨_, rfl⟩) demoParams id (fun _ => rfl)
     (fun q h => by cases h)
+
+/-- the hypotheses of `convert_pipe_convert_stream_ok` are satisfiable: the pipeline `from_container`
+    over a converted demo leaf builds -/
+example (ops : Ops Nat) : ∃ o, build ops (convLeaves (fun _ => Src.ofLookup demoLookup Pyramid.newEmpty)
+    (fun _ => demoParams) (fun _ => 0) (fun _ => 0)) (.leaf 0) = .ok o := by
+  obtain ⟨s', h1, _⟩ := convert_good (Src.ofLookup demoLookup Pyramid.newEmpty) demoParams id (fun _ => rfl)
+    (fun q h => by cases h) (default_good demoLookup _ VtProofs.Converter.wf_newEmpty
+      (fun c _ => by unfold demoLookup; split <;> exact ⟨_, rfl⟩))
+  refine ⟨⟨s', 0, 0⟩, ?_⟩
+  simp only [build, convLeaves, h1, Outcome.map, Outcome.bind]
 
 end VtProps.C02
